@@ -364,6 +364,15 @@ pub fn expt(vm: &mut Vm) -> Result<VCell, Error> {
     let exp = match exp.to_u32() {
         Some(exp) => exp,
         None => {
+            // Beyond u32 only the powers of 0, 1 and -1 can be written down.
+            let (zero, one) = (Number::Fixnum(0), Number::Fixnum(1));
+            if exp > zero && (x == zero || x == one) {
+                return Ok(x.into());
+            }
+            if exp > zero && x == Number::Fixnum(-1) {
+                let even = (&exp % &Number::Fixnum(2)).is_some_and(|rem| rem == zero);
+                return Ok(if even { one } else { x }.into());
+            }
             return Err(InvalidSyntax("expt: exponent is too large".into()));
         }
     };
